@@ -161,17 +161,16 @@ func (vc *VC) assume(pc, fact string) {
 	if fact == "true" {
 		return
 	}
-	var a string
-	if pc == "true" || pc == "" {
-		a = fmt.Sprintf("(assert %s)", fact)
-	} else {
-		a = fmt.Sprintf("(assert (=> %s %s))", pc, fact)
-	}
-	if vc.factSeen[a] {
+	key := pc + "\x00" + fact
+	if vc.factSeen[key] {
 		return
 	}
-	vc.factSeen[a] = true
-	vc.items = append(vc.items, a)
+	vc.factSeen[key] = true
+	if pc == "true" || pc == "" {
+		vc.items = append(vc.items, "(assert "+fact+")")
+	} else {
+		vc.items = append(vc.items, "(assert (=> "+pc+" "+fact+"))")
+	}
 }
 
 func (vc *VC) note(f string, a ...interface{}) {
